@@ -13,7 +13,7 @@ Theorem apply_ok_spec s s' :
     a_log s' = a_log s1 ++ [(true, st)] /\
     (forall p, a_policy s1 = Some p -> descends (a_commits s1) (S (List.length (a_commits s1))) st p = true) /\
     lookup_pc (a_commits s1) (match latest_entry_for (a_log s1) false with Some e => e | None => st end) = Some staged /\
-    state_verify (pc_state staged) = true /\
+    state_verify (pc_state staged) = true /\ pc_ctl_ok staged = true /\
     (forall cur, chain_verifies (policy_chain s1) = Some (Some cur) -> verify_new_state cur (pc_state staged) = true).
 Proof.
   cbn [astep]. destruct (reconcile s) as [[e|] s1] eqn:Er; [discriminate|].
@@ -23,9 +23,10 @@ Proof.
   destruct (chain_verifies (policy_chain s1)) as [cur|] eqn:Ec; [|discriminate].
   destruct (latest_entry_for (a_log s1) false) as [ste|] eqn:El; [|discriminate].
   destruct (lookup_pc (a_commits s1) ste) as [staged|] eqn:Ep; [|discriminate].
-  destruct (state_verify (pc_state staged) && match cur with Some c => verify_new_state c (pc_state staged) | None => true end
-            && match cur with Some c => state_verify c | None => true end) eqn:Ev; [|discriminate].
+  destruct (pc_ctl_ok staged && (state_verify (pc_state staged) && match cur with Some c => verify_new_state c (pc_state staged) | None => true end
+            && match cur with Some c => state_verify c | None => true end)) eqn:Ev; [|discriminate].
   intros [= <-]. exists s1, st, staged. cbn [a_policy a_staging a_log].
+  apply andb_true_iff in Ev as [Ectl Ev].
   apply andb_true_iff in Ev as [Ev _]. apply andb_true_iff in Ev as [Ev1 Ev2].
   repeat split; try assumption; try reflexivity.
   - intros p Hp. rewrite Hp in Ed. now apply negb_false_iff in Ed.
@@ -138,7 +139,7 @@ Qed.
 
 Theorem astep_inv s o e s' : AInv s -> astep s o = (e, s') -> AInv s'.
 Proof.
-  intros Hi H. destruct o as [ps| | |c|c]; cbn [astep] in H.
+  intros Hi H. destruct o as [ps ctl| | |c|c]; cbn [astep] in H.
   - (* stage *) injection H as <- <-. destruct Hi as [Hl Hn]. split.
     + rewrite <- Hl. apply loadable_only_chain. unfold policy_chain. cbn [a_log a_commits].
       rewrite flat_map_app. cbn [flat_map fst app]. rewrite app_nil_r.
@@ -155,8 +156,9 @@ Proof.
     destruct (chain_verifies (policy_chain s1)) as [cur|] eqn:Ech; [|injection H as <- <-; exact Hi1].
     destruct (latest_entry_for (a_log s1) false) as [ste|] eqn:Este; [|injection H as <- <-; exact Hi1].
     destruct (lookup_pc (a_commits s1) ste) as [staged|] eqn:Els; [|injection H as <- <-; exact Hi1].
-    destruct (state_verify (pc_state staged) && match cur with Some c => verify_new_state c (pc_state staged) | None => true end
-              && match cur with Some c => state_verify c | None => true end) eqn:Eok; [|injection H as <- <-; exact Hi1].
+    destruct (pc_ctl_ok staged && (state_verify (pc_state staged) && match cur with Some c => verify_new_state c (pc_state staged) | None => true end
+              && match cur with Some c => state_verify c | None => true end)) eqn:Eok; [|injection H as <- <-; exact Hi1].
+    apply andb_true_iff in Eok as [_ Eok].
     injection H as <- <-. destruct Hi1 as [Hl1 Hn1].
     assert (Hst : ste = st).
     { unfold ref_consistent in Hc. destruct (N.eqb_spec st ste); [congruence|contradiction]. }
